@@ -9,6 +9,7 @@ import (
 	"crypto/x509"
 	"fmt"
 	"net/netip"
+	"strings"
 	"testing"
 	"time"
 
@@ -213,7 +214,35 @@ func c20World(t *testing.T, r *simcore.Run) any {
 	nattempts := 1 + tp.Intn(6, "attempts")
 	scripts := make([]*keScript, 0, nattempts+2)
 	for k := 0; k < nattempts+2; k++ {
-		scripts = append(scripts, keGenScript(tp, k))
+		sc := keGenScript(tp, k)
+		scripts = append(scripts, sc)
+		// what this peer does wrong (or unusually), for the evidence's fault account
+		if !sc.real {
+			if len(sc.alpn) != 1 || sc.alpn[0] != keALPN {
+				r.Fault("peer:other-or-no-alpn")
+			}
+			if sc.noEOM {
+				r.Fault("peer:no-end-of-message")
+			}
+			if strings.Contains(sc.desc, "shuffled") {
+				r.Fault("peer:records-reordered")
+			}
+			for _, rec := range sc.records {
+				switch {
+				case strings.HasPrefix(rec.Note, "error"):
+					r.Fault("peer:error-record")
+				case rec.Note == "warning":
+					r.Fault("peer:warning-record")
+				case rec.Note == "unknown" && rec.Critical:
+					r.Fault("peer:unknown-critical-record")
+				case rec.Note == "unknown":
+					r.Fault("peer:unknown-record")
+				}
+			}
+			if sc.chunks {
+				r.Fault("peer:message-in-several-tls-records")
+			}
+		}
 	}
 	lst.PlanFor = func(k int) *simnet.StreamPlan {
 		p := simnet.DefaultStreamPlan()
